@@ -133,6 +133,10 @@ def run_case(case):
     if cls == "line/vv":
         p, bump = a
         return G.Line(fvec(p), fvec((0, 0, 0), bump))
+    if cls == "line/vp":
+        # the constructor also takes (position vector, Point): a Point at that position gives a zero direction
+        p, bump = a
+        return G.Line(fvec(p), fpt(p, bump))
     if cls == "segment/pp":
         p, bump = a
         return G.Segment(fpt(p), fpt(p, bump))
@@ -206,6 +210,16 @@ def run_case(case):
                             faces.append(G.ConvexPolygon((fpt(pts[i]), fpt(pts[j]), fpt(pts[l]))))
                             return G.ConvexPolyhedron(tuple(faces))
             raise ValueError("no internal triangle")  # every triple on a face (cannot happen for a 3-D body)
+        elif mode == "dup-for-missing":
+            # one face handed over twice in place of another face with the same number of vertices: V, E, F and the
+            # number of face sides are those of the closed body
+            i = k % len(faces)
+            same = [j for j in range(len(faces)) if j != i and len(K[2][j][2]) == len(K[2][i][2])]
+            if not same:
+                del faces[i]
+            else:
+                j = same[(k // 3) % len(same)]
+                faces[j] = G.ConvexPolygon(tuple(fpt(K[1][t]) for t in K[2][i][2]))
         elif mode == "swap-internal":
             # one face replaced by a polygon through the interior whose edges are all edges of the body (e.g. the
             # equator of a bipyramid): V, E and F - and the total number of face sides - are those of the closed body
@@ -356,11 +370,55 @@ def polygon_collinear(draw):
 
 
 @st.composite
+def polygon_same_angle(draw):
+    """a parallelogram plus an extra point off its plane above the ray from the centre to the vertex opposite the
+    first one, listed after the three points that span the plane and before that opposite vertex: seen from the
+    centre of all five points the extra point and that vertex lie in exactly the same direction"""
+    fr_ = draw(GB.frame())
+    a, b = draw(st.sampled_from((1, 2, 3))), draw(st.sampled_from((1, 2)))
+    sh = draw(st.integers(-1, 1))
+    q = [GB.in_frame(fr_, ab) for ab in ((0, 0), (a, 0), (a + sh, b), (sh, b))]
+    n = tuple(F(c) for c in X.primitive(X.cross(fr_[1], fr_[2])))
+    off = draw(st.sampled_from((F(1, 64), F(-1, 64), F(1, 8), F(1), F(-1, 2), F(2))))
+    c = X.centroid(q)
+    r = draw(st.integers(0, 3))
+    q = q[r:] + q[:r]
+    if draw(st.booleans()):
+        q = [q[0], q[3], q[2], q[1]]
+    sc = draw(st.sampled_from((F(1, 2), F(1, 4), F(3, 4), F(1))))
+    extra = X.add(X.add(c, X.mul(sc, X.sub(q[2], c))), X.mul(off, n))
+    return ("polygon/nonplanar", (q[0], q[1], q[3], extra, q[2]))
+
+
+@st.composite
 def polygon_nonplanar(draw):
     g = draw(st.one_of(GB.polygon(3, 6), GB.polygon(6, 8)))
     n = tuple(F(c) for c in X.primitive(X.poly_normal(g[1])))
     pts = list(g[1])
     off = draw(st.sampled_from((F(1, 64), F(-1, 64), F(1, 8), F(1), F(-1, 2))))
+    if draw(st.integers(0, 2)) == 0:
+        # an extra point straight above (or below) the centre of the vertices, anywhere in the list: seen from the
+        # centre it has no direction of its own
+        c = X.centroid(pts)
+        extra = X.add(c, X.mul(off * draw(st.sampled_from((1, 4, 16))), n))
+        if len(pts) == 4 and tuple(X.add(pts[0], pts[2])) == tuple(X.add(pts[1], pts[3])) and draw(st.booleans()):
+            # parallelogram: the extra point above the ray from the centre to the vertex opposite the first one, listed
+            # after the three points that span the plane and before that opposite vertex
+            sc = draw(st.sampled_from((F(1, 2), F(1, 4), F(3, 4))))
+            extra = X.add(extra, X.mul(sc, X.sub(pts[2], c)))
+            r = draw(st.integers(0, 3))
+            q = pts[r:] + pts[:r]
+            return ("polygon/nonplanar", (q[0], q[1], q[3], extra, q[2]))
+        if draw(st.booleans()):
+            # ... or above a point of the ray from the centre to one of the vertices: seen from the (shifted) centre
+            # it has exactly the direction of that vertex
+            j = draw(st.integers(0, len(pts) - 1))
+            sc = draw(st.sampled_from((F(1, 2), F(1, 4), F(3, 4))))
+            extra = X.add(extra, X.mul(sc, X.sub(pts[j], c)))
+        pts.insert(draw(st.integers(0, len(pts))), extra)
+        if draw(st.booleans()):
+            pts = list(draw(st.permutations(pts)))
+        return ("polygon/nonplanar", tuple(pts))
     if len(pts) >= 4 and draw(st.booleans()):
         # one vertex of the cycle lifted, handed over at a chosen position of the input (the others keep their order
         # up to a rotation): a validation that trusts particular input positions must still see it
@@ -501,7 +559,7 @@ def internal_cycle(K):
 @st.composite
 def faces_bad(draw):
     K = draw(GB.polyhedron())
-    mode = draw(st.sampled_from(("open", "open2", "duplicate", "extra-internal", "flat-one", "flat-two", "empty", "two-opposite", "open+detached", "swap-internal", "swap-internal", "two-bodies", "two-bodies-vertex")))
+    mode = draw(st.sampled_from(("open", "open2", "duplicate", "extra-internal", "flat-one", "flat-two", "empty", "two-opposite", "open+detached", "swap-internal", "swap-internal", "two-bodies", "two-bodies-vertex", "dup-for-missing", "dup-for-missing")))
     return ("polyhedron/faces", K, mode, draw(st.integers(0, 20)))
 
 
@@ -570,13 +628,14 @@ def strata(tier):
     q = tier == "quick"
     n = 120 if q else 4000
     out = []
-    for cls in ("line/pp", "line/pv", "line/vv", "segment/pp", "segment/pv", "halfline/pp", "halfline/pv"):
+    for cls in ("line/pp", "line/pv", "line/vv", "line/vp", "segment/pp", "segment/pv", "halfline/pp", "halfline/pv"):
         out.append(Stratum(cls, "hyp", zero_length(cls), n))
     out += [
         Stratum("polygon/few", "hyp", polygon_few(), n // 2),
         Stratum("polygon/few-distinct", "hyp", polygon_few_distinct(), n),
         Stratum("polygon/collinear", "hyp", polygon_collinear(), n),
-        Stratum("polygon/nonplanar", "hyp", polygon_nonplanar(), n),
+        Stratum("polygon/nonplanar", "hyp", polygon_nonplanar(), n * 3),
+        Stratum("polygon/nonplanar-same-angle", "hyp", polygon_same_angle(), n // 2),
         Stratum("polygon/keyword-forms", "hyp", polygon_keyword_forms(), n),
         Stratum("plane/zero-normal", "hyp", plane_zero(), n),
         Stratum("plane/collinear-points", "hyp", plane_collinear(), n),
